@@ -292,7 +292,7 @@ def check_once(prog: Program, res: Result) -> None:
         seeds = astq.target_names(loop.target)
         dep = astq.dep_closure(loop.body, seeds)
         arg = c.args[0] if c.args else None
-        res.ob("C09-once", arg is not None and bool(astq.loads_in(arg) & seeds), fi.qualname, f"appended value derives from the loop element: {short(arg, 40) if arg else ''}",
+        res.ob("C09-once", arg is not None and bool(astq.loads_in(arg) & dep), fi.qualname, f"appended value derives from the loop element: {short(arg, 40) if arg else ''}",
                "the appended instance does not come from the loop element (an instance that was not given may be returned)", f"{fi.module.relpath}:{c.lineno}")
         # guards that may skip the append: only `<track id> is not None`
         guards = [a for a in ancestors(c) if isinstance(a, ast.If) and astq.in_body_of(a, loop, "body")]
@@ -303,8 +303,18 @@ def check_once(prog: Program, res: Result) -> None:
             res.ob("C09-once", ok, fi.qualname, f"only untracked instances are skipped: if {short(t, 40)}",
                    f"the append is guarded by `{short(t, 50)}`: tracked detections can be dropped from the output", f"{fi.module.relpath}:{g.lineno}")
         # no break / continue / return inside the loop body that skips elements
-        jumps = [n for st in loop.body for n in ast.walk(st) if isinstance(n, (ast.Break, ast.Continue, ast.Return))]
-        res.ob("C09-once", not jumps, fi.qualname, "no break/continue/return in the emitting loop",
+        def _untracked_skip(j) -> bool:
+            """`continue` taken only for an element without a track id (`if <track id> is None: continue`)."""
+            if not isinstance(j, ast.Continue):
+                return False
+            gs = [a for a in ancestors(j) if isinstance(a, ast.If) and astq.in_body_of(a, loop, "body")]
+            if len(gs) != 1 or not astq.in_body_of(j, gs[0], "body"):
+                return False
+            x = astq.is_none_test(gs[0].test)
+            return x is not None and "track_id" in astq.xnorm(fn, x, keep=list(seeds))
+
+        jumps = [n for st in loop.body for n in ast.walk(st) if isinstance(n, (ast.Break, ast.Continue, ast.Return)) and not _untracked_skip(n)]
+        res.ob("C09-once", not jumps, fi.qualname, "no break/continue/return in the emitting loop (other than skipping untracked elements)",
                "the emitting loop can be left early (detections dropped)", f"{fi.module.relpath}:{loop.lineno}")
     res.floor("C09-once", 12)
 
